@@ -96,7 +96,38 @@ tasks:
   p3fast: {command: ["echo p3 >> $TRACE; exit ${ST_p3:-0}"]}
   p3slow: {command: ["sleep 0.4; echo p3 >> $TRACE"]}
   p3slower: {command: ["sleep 0.7; echo p3 >> $TRACE"]}
+  m1: {command: ["echo q1 >> $TRACE"]}
+  m2: {command: ["echo q2 >> $TRACE"]}
+  m3: {command: ["echo q3 >> $TRACE"]}
+  in1: {command: ["exit ${ST_q1:-0}"]}
+  in2: {command: ["exit ${ST_q3:-0}"]}
 pipelines:
+  inner1:
+    - task: in1
+  inner2:
+    - task: in2
+  # one pipeline included by two stages: the first tolerates its failure, the second (later) does not
+  q1:
+    - task: m1
+    - name: a
+      pipeline: inner1
+      allow_failure: true
+      depends_on: [m1]
+    - name: b
+      pipeline: inner1
+      depends_on: [a]
+  # ... and by two pipelines named one after the other on the command line
+  q2:
+    - task: m2
+    - name: a
+      pipeline: inner2
+      allow_failure: true
+      depends_on: [m2]
+  q3:
+    - task: m3
+    - name: b
+      pipeline: inner2
+      depends_on: [m3]
   p1:
     - task: p1a
     - task: p1b
@@ -115,7 +146,7 @@ func cliTargetsCase(col *Collector, focus string, dir string, targets []string, 
 	defer os.Remove(trace)
 	env := []string{"TRACE=" + trace}
 	var oks []string
-	for _, n := range []string{"t1", "t2", "t3", "t4", "t5", "t6", "p1", "p2", "p3"} {
+	for _, n := range []string{"t1", "t2", "t3", "t4", "t5", "t6", "p1", "p2", "p3", "q1", "q2", "q3"} {
 		env = append(env, fmt.Sprintf("ST_%s=%d", n, st[n]))
 		// t3 allows failure; t4 and t5 allow failure too, but fail in ways allow_failure does not cover
 		// (a failing before hook, a command that overruns the task's timeout)
@@ -288,6 +319,15 @@ func runCliTargets(col *Collector, focus, tier string, rng *rand.Rand) {
 	for _, g := range gpool[2:] {
 		fixed = append(fixed, job{[]string{"t6", "t2"}, map[string]int{"t1": 0, "t2": 0, "t3": 0, "t4": 0, "t5": 0, "t6": 0, "p1": 0, "p2": 0}, "root", nil, g, nil})
 		fixed = append(fixed, job{[]string{"t6", "t2"}, map[string]int{"t1": 0, "t2": 0, "t3": 0, "t4": 0, "t5": 0, "t6": 9, "p1": 0, "p2": 0}, "run", nil, g, nil})
+	}
+	// a failing pipeline included twice: tolerated by the first including stage / pipeline, not by the second
+	for _, form := range []string{"root", "run"} {
+		for _, q := range []int{0, 3} {
+			base := map[string]int{"t1": 0, "t2": 0, "t3": 0, "t4": 0, "t5": 0, "t6": 0, "p1": 0, "p2": 0, "p3": 0, "q1": q, "q2": 0, "q3": q}
+			fixed = append(fixed, job{[]string{"q1", "t2"}, base, form, nil, nil, nil})
+			fixed = append(fixed, job{[]string{"q2", "q3", "t2"}, base, form, nil, nil, nil})
+			fixed = append(fixed, job{[]string{"q3", "q2"}, base, form, nil, nil, nil})
+		}
 	}
 	jobs = append(jobs, fixed...)
 	parallel(len(jobs), 16, func(i int) {
